@@ -232,6 +232,15 @@ func (e *XNilBar) Error() string {
 	return e.Msg
 }
 
+// GBar is a renamed generic type (was "*gen.GFoo[int]" for the instantiation
+// used here).
+type GBar[T any] struct {
+	Msg string
+	V   T
+}
+
+func (e *GBar[T]) Error() string { return e.Msg }
+
 // BarMulti is a renamed multi-cause type (was "*gen.FooMulti") with a
 // decoder registered through RegisterMultiCauseDecoder.
 type BarMulti struct {
